@@ -451,7 +451,7 @@ example : (strToNum [49,101,52,48,48] 0 5).map (·.kind) = some .notANumber := b
 `powerOfNegativeTen num x` aims at `β = num·2^(64+S)/5^x` (then `num·10^-x = β·2^-(x+64+S)`).
 With `k ≤ x/27 + 1 ≤ 14` multiply-shift steps the big integer `b` it normalises satisfies
 
-  `β·(1 − k·2^-61) − k  ≤  b  ≤  β·(1 + k·2^-61)`
+  `β·(1 − k·2^-62) − k  ≤  b  ≤  β·(1 + k·2^-62)`
 
 (stated without division below). Consequence, **on paper only**: with `bit` the top bit of `b`,
 the value handed to the final 53-bit rounding is off by less than `k/2^(bit−52) + 2^-4` units in
@@ -464,14 +464,14 @@ subnormal branch of `negFinish`) and is **not** done, so `real_within_one_ulp` s
 `Prop` for negative net exponents and is searched by the oracle. -/
 theorem negScale_error_bound (num x : Nat) (hn : num < 2 ^ 64) (hx : x ≤ 2 ^ 20) :
     ∃ b S k, negScale num x = some (b, x + 64 + S) ∧ k ≤ x / 27 + 1 ∧ S ≤ 64 * (x / 27 + 1) ∧
-      b * 5 ^ x * 2 ^ 61 ≤ num * 2 ^ (64 + S) * (2 ^ 61 + k) ∧
-      num * 2 ^ (64 + S) * 2 ^ 61 ≤ (b + k) * 5 ^ x * (2 ^ 61 + k) :=
+      b * 5 ^ x * 2 ^ 62 ≤ num * 2 ^ (64 + S) * (2 ^ 62 + k) ∧
+      num * 2 ^ (64 + S) * 2 ^ 62 ≤ (b + k) * 5 ^ x * (2 ^ 62 + k) :=
   negScale_error num x hn hx
 
 /-- instance: `1e-5` — `b = 12089258196146291748`, `S = 11`, one step; both inequalities hold with room -/
 example : negScale 1 5 = some (12089258196146291748, 5 + 64 + 11) ∧
-    12089258196146291748 * 5 ^ 5 * 2 ^ 61 ≤ 1 * 2 ^ (64 + 11) * (2 ^ 61 + 1) ∧
-    1 * 2 ^ (64 + 11) * 2 ^ 61 ≤ (12089258196146291748 + 1) * 5 ^ 5 * (2 ^ 61 + 1) := by decide
+    12089258196146291748 * 5 ^ 5 * 2 ^ 62 ≤ 1 * 2 ^ (64 + 11) * (2 ^ 62 + 1) ∧
+    1 * 2 ^ (64 + 11) * 2 ^ 62 ≤ (12089258196146291748 + 1) * 5 ^ 5 * (2 ^ 62 + 1) := by decide
 
 
 /-! ### A digit run that reaches `end_offset` (for the JSON prefix-rejection proofs)
